@@ -320,7 +320,13 @@ RangesOf == {<<AlphaSeq[p[1]], AlphaSeq[p[2]]>> : p \in {q \in (1..Len(AlphaSeq)
 RangeCls == {Cls(rg, ng, Nil) : rg \in RangesOf, ng \in {0, 1}}
 TwoRangeCls == {Cls(r1 \o r2, ng, Nil) : r1 \in RangesOf, r2 \in RangesOf, ng \in {0, 1}}
 RepFormsC == {<<"*", 0, INF>>, <<"+", 1, INF>>, <<"n,", 1, INF>>}
-Named(n) == CASE n = "AtomsQ" -> AtomsQ [] n = "RangeCls" -> RangeCls [] n = "AtomsAll" -> AtomsAll [] n = "AtomsMid" -> AtomsMid [] n = "AtomsSmall" -> AtomsSmall
+\* family D: a group holding a literal of 2-3 characters under a quantifier with minimum 0 or 1, between / before / after
+\* single-character literals (fixed-string pre-filter: a literal inside an optional group is not a required substring)
+Lits2 == {L1, L2}
+LitStrs == {Cat(a, b) : a \in Lits2, b \in Lits2} \cup {Cat(a, Cat(b, c)) : a \in Lits2, b \in Lits2, c \in Lits2}
+RepFormsD == {<<"n,m", 0, 1>>, <<"n,m", 0, 2>>, <<"n,", 0, INF>>, <<"n,m", 1, 2>>, <<"?", 0, 1>>, <<"*", 0, INF>>}
+Named(n) == CASE n = "AtomsQ" -> AtomsQ [] n = "RangeCls" -> RangeCls
+              [] n = "QLit" -> Reps(LitStrs, RepFormsD) [] n = "QLitPost" -> Cats(Reps(LitStrs, RepFormsD), Lits2) [] n = "AtomsAll" -> AtomsAll [] n = "AtomsMid" -> AtomsMid [] n = "AtomsSmall" -> AtomsSmall
               [] n = "AtomsTiny" -> AtomsTiny [] n = "AtomsChk" -> AtomsChk [] n = "Atoms4" -> Atoms4 [] n = "BadCls" -> BadCls
               [] n = "P1Small" -> P1Small [] n = "P1Two" -> P1Two [] n = "P1Chk" -> P1Chk [] n = "Pairs" -> Pairs
               [] n = "QTiny" -> Reps(AtomsTiny, RepFormsSmall) [] n = "QTiny3" -> Reps(AtomsTiny, RepForms3)
@@ -358,7 +364,8 @@ GroupsChk == Ones(AtomsChk) \cup RepG(RepFormsChk, "AtomsChk") \cup CatL(Atoms4,
 GroupsChk2 == GroupsChk \cup Ones(P1Chk) \cup RepG(RepFormsChk, "P1Chk") \cup CatL(P1Chk, "AtomsChk") \cup CatR(P1Chk, "Atoms4") \cup AltL(P1Chk, "Atoms4")
               \cup CatL(Reps(AtomsTiny, RepFormsSmall), "QPairs3")
 GroupsC == CatL(Reps(RangeCls, RepFormsC), "RangeCls") \cup Ones(TwoRangeCls)
-Groups == CASE Uni = "C" -> GroupsC [] Uni = "A" -> GroupsA [] Uni = "A2" -> GroupsA2 [] Uni = "B" -> GroupsB [] Uni = "B2" -> GroupsB2
+GroupsD == CatL(Lits2, "QLitPost") \cup CatL(Lits2, "QLit") \cup CatR(Lits2, "QLit")
+Groups == CASE Uni = "C" -> GroupsC [] Uni = "D" -> GroupsD [] Uni = "A" -> GroupsA [] Uni = "A2" -> GroupsA2 [] Uni = "B" -> GroupsB [] Uni = "B2" -> GroupsB2
             [] Uni = "chk" -> GroupsChk [] Uni = "chk2" -> GroupsChk2
 Universe == UNION {Members(g) : g \in Groups}
 
